@@ -2,7 +2,13 @@
 
 package generator
 
-import "text/template"
+import (
+	"strings"
+	"text/template"
+
+	"github.com/go-openapi/analysis"
+	"github.com/go-openapi/swag"
+)
 
 // Read-only accessors for the verification harness (build tag `verif`). Nothing here is compiled into a normal build.
 
@@ -24,4 +30,30 @@ func VerifTemplates() map[string]*template.Template {
 		}
 	}
 	return out
+}
+
+// VerifOpRef is the part of an opRef the harness compares.
+type VerifOpRef struct {
+	Name   string // the name the operation is registered under (map key; also written to Op.ID)
+	Key    string
+	Method string
+	Path   string
+	ID     string // operationId as given in the spec
+}
+
+// VerifGatherOperations runs gatherOperations and also returns the candidate list it starts from (Key computed the
+// same way, original operationId), so that a model can be run on the same input.
+func VerifGatherOperations(specDoc *analysis.Spec, operationIDs []string) (candidates []VerifOpRef, result []VerifOpRef) {
+	for method, pathItem := range specDoc.Operations() {
+		for path, operation := range pathItem {
+			candidates = append(candidates, VerifOpRef{
+				Key:    swag.ToGoName(strings.ToLower(method) + " " + swag.ToHumanNameTitle(path)),
+				Method: method, Path: path, ID: operation.ID,
+			})
+		}
+	}
+	for name, o := range gatherOperations(specDoc, operationIDs) {
+		result = append(result, VerifOpRef{Name: name, Key: o.Key, Method: o.Method, Path: o.Path, ID: o.ID})
+	}
+	return
 }
